@@ -16,9 +16,11 @@ import (
 	"strconv"
 	"strings"
 	"sync"
+	"sync/atomic"
 	"time"
 
 	sdktrace "go.opentelemetry.io/otel/sdk/trace"
+	"go.opentelemetry.io/otel"
 	"go.opentelemetry.io/otel/attribute"
 	"go.opentelemetry.io/otel/trace"
 
@@ -163,32 +165,32 @@ func (s *samp) build(rec *recorder) sdktrace.Sampler {
 }
 
 // buildPlain builds the sampler without recorders, spelling ParentBased the way users do: options in any
-// order, options equal to the defaults left out, earlier options overridden by later ones.
-func (s *samp) buildPlain(r *vgen.Rand) sdktrace.Sampler {
+// order, any number of them, repeated kinds (the model applies the same list: parent_based_with).
+func (s *samp) buildPlain(r *vgen.Rand) (sdktrace.Sampler, string) {
 	if s.Kind != "parent" {
-		return s.build(nil)
+		return s.build(nil), s.coq()
 	}
 	mk := []func(sdktrace.Sampler) sdktrace.ParentBasedSamplerOption{nil, sdktrace.WithRemoteParentSampled, sdktrace.WithRemoteParentNotSampled,
 		sdktrace.WithLocalParentSampled, sdktrace.WithLocalParentNotSampled}
-	defaults := []string{"", "always", "never", "always", "never"}
+	names := []string{"", "ORemoteSampled", "ORemoteNotSampled", "OLocalSampled", "OLocalNotSampled"}
 	var opts []sdktrace.ParentBasedSamplerOption
-	order := []int{1, 2, 3, 4}
-	for i := range order {
-		j := i + r.Intn(len(order)-i)
-		order[i], order[j] = order[j], order[i]
-	}
-	for _, k := range order {
-		if s.Sub[k].Kind == defaults[k] && r.Bool() {
-			continue
-		}
-		opts = append(opts, mk[k](s.Sub[k].buildPlain(r)))
-	}
-	if r.Chance(1, 2) { // a decoy for one delegate, overridden by the options that follow
+	var coq []string
+	n := r.Intn(8) // any number of options, any order, repeated kinds: the last of each kind counts
+	for i := 0; i < n; i++ {
 		k := 1 + r.Intn(4)
-		decoy := vgen.Pick(r, []sdktrace.Sampler{sdktrace.AlwaysSample(), sdktrace.NeverSample(), customSampler{d: sdktrace.RecordOnly}})
-		opts = append([]sdktrace.ParentBasedSamplerOption{mk[k](decoy)}, append(opts, mk[k](s.Sub[k].buildPlain(r)))...)
+		var sub sdktrace.Sampler
+		var c string
+		if r.Chance(2, 3) {
+			sub, c = s.Sub[k].buildPlain(r)
+		} else {
+			d := &samp{Kind: vgen.Pick(r, []string{"always", "never", "custom"}), Dec: r.Intn(3)}
+			sub, c = d.build(nil), d.coq()
+		}
+		opts = append(opts, mk[k](sub))
+		coq = append(coq, vgen.App(names[k], c))
 	}
-	return sdktrace.ParentBased(s.Sub[0].buildPlain(r), opts...)
+	root, rc := s.Sub[0].buildPlain(r)
+	return sdktrace.ParentBased(root, opts...), vgen.App("parent_based_with", rc, vgen.List(coq))
 }
 
 // ---- programs ------------------------------------------------------------------
@@ -262,6 +264,7 @@ type progObs struct {
 	Problems  []string
 	GenOutrun bool
 	Consumed  int
+	EnvErr    bool // an error reached the global error handler while the provider was built
 }
 
 type planGen struct {
@@ -343,11 +346,17 @@ func runProgram(s *samp, p plan) progObs {
 	opts := []sdktrace.TracerProviderOption{sdktrace.WithIDGenerator(idgen),
 		sdktrace.WithSpanProcessor(sdktrace.NewSimpleSpanProcessor(e1)), sdktrace.WithSpanProcessor(bsp)}
 	if s != nil && p.Plain {
-		opts = append(opts, sdktrace.WithSampler(s.buildPlain(vgen.NewRand(p.Seed))))
+		ps, _ := s.buildPlain(vgen.NewRand(p.Seed))
+		opts = append(opts, sdktrace.WithSampler(ps))
 	} else if s != nil {
 		opts = append(opts, sdktrace.WithSampler(recSampler{inner: s.build(rec), rec: rec}))
 	}
+	var handled int32
+	if s == nil { // environment scenario (child process): watch the global error handler
+		otel.SetErrorHandler(otel.ErrorHandlerFunc(func(error) { atomic.AddInt32(&handled, 1) }))
+	}
 	tp := sdktrace.NewTracerProvider(opts...)
+	o.EnvErr = atomic.LoadInt32(&handled) > 0
 	trs := []trace.Tracer{tp.Tracer("c09"), tp.Tracer("c09/other", trace.WithInstrumentationVersion("2"))}
 	bg := context.Background()
 	var ctxs []context.Context
@@ -908,7 +917,12 @@ func main() {
 			for _, pr := range ob.Problems {
 				w.Violation(pr, desc)
 			}
-			args := append([]string{vgen.Bool(!p.Plain), s.coq(), p.gensCoq(), p.opsCoq()}, ob.coqTail()...)
+			sc := s.coq()
+			if p.Plain { // the sampler as it was spelled: ParentBased(root, options...) with the options actually passed
+				_, sc = s.buildPlain(vgen.NewRand(p.Seed))
+				desc["sampler"] = sc
+			}
+			args := append([]string{vgen.Bool(!p.Plain), sc, p.gensCoq(), p.opsCoq()}, ob.coqTail()...)
 			nontriv := false
 			for _, op := range p.Ops {
 				if op.Kind != 0 {
@@ -1160,7 +1174,8 @@ func main() {
 				for _, pr := range ob.Problems {
 					w.Violation(pr, desc)
 				}
-				args := append([]string{rawCoq, argCoq, p.gensCoq(), p.opsCoq()}, ob.coqTail()...)
+				desc["error_reported"] = ob.EnvErr
+				args := append([]string{rawCoq, argCoq, vgen.Bool(ob.EnvErr), p.gensCoq(), p.opsCoq()}, ob.coqTail()...)
 				w.Tally("env")
 				w.Add(vgen.App("CEnv", args...), desc, "env", name != nil)
 			})
